@@ -61,6 +61,10 @@ def rng_for(prop, seed, index, stream="main"):
 # outcome normal form
 # ---------------------------------------------------------------------------
 def outcome_of(fn, *a, **kw):
+    if kw:
+        from .gen import expand_values
+
+        kw = expand_values(kw)
     try:
         v = fn(*a, **kw)
     except Exception as e:  # noqa: BLE001 - classification is the point
